@@ -45,7 +45,7 @@ struct Block {
 
 /// block names that sort on both sides of each other and of the name the resolver gives the
 /// collateral query ("collateral"): blocks are visited in name order
-const NAME_POOL: [&str; 12] = ["a_src", "blk", "bravo", "c", "collateral_extra", "cz", "dust", "fee_payer", "main", "source", "x", "zeta"];
+const NAME_POOL: [&str; 14] = ["a_src", "blk", "bravo", "c", "collateral", "collateral_extra", "cz", "dust", "fee_payer", "main", "MAIN", "source", "x", "zeta"];
 
 fn program(blocks: &[Block], store: &[Utxo], collateral: Option<i64>, names: &[String], refs: &[usize]) -> Program {
     let mut inputs = vec![];
